@@ -569,3 +569,78 @@ theorem runVotes_acc (L br : Int) : ∀ (evs : List (Bool × Int × Int)) (p : P
     · rw [this.2]; omega
 
 end Goloop.C35.Proofs
+
+namespace Goloop.C35.Proofs
+open Goloop.C35
+
+/-! ### the same vote events reach the voter side and the P-Rep side -/
+
+/-- sum of the entries of a vote list for target `k` -/
+def votesTo (k : Nat) (vs : Votes) : Int := sumInt ((votesFor vs k).map (·.2))
+
+theorem votesTo_cons (k : Nat) (v : Nat × Int) (vs : Votes) :
+    votesTo k (v :: vs) = (if v.1 == k then v.2 else 0) + votesTo k vs := by
+  by_cases h : (v.1 == k) = true <;> simp [votesTo, votesFor, List.filter_cons, h, sumInt_cons]
+
+theorem votesTo_append (k : Nat) (a b : Votes) : votesTo k (a ++ b) = votesTo k a + votesTo k b := by
+  simp [votesTo, votesFor, List.filter_append, List.map_append, sumInt_append]
+
+theorem avAdd_votesTo (k k' : Nat) (amt : Int) : ∀ (av : Votes),
+    votesTo k (avAdd av k' amt) = votesTo k av + (if k' == k then amt else 0) := by
+  intro av
+  induction av with
+  | nil =>
+    by_cases h : (k' == k) = true <;> simp [avAdd, votesTo, votesFor, List.filter_cons, h, sumInt]
+  | cons e rest ih =>
+    simp only [avAdd]
+    by_cases h : (e.1 == k') = true
+    · simp only [h, if_true, votesTo_cons]
+      have e1 : e.1 = k' := eq_of_beq h
+      by_cases hk : (k' == k) = true
+      · have : (e.1 == k) = true := by rw [e1]; exact hk
+        simp only [this, hk, if_true]; omega
+      · have : (e.1 == k) = false := by rw [e1]; simpa using hk
+        simp [this, hk]
+    · have h' : (e.1 == k') = false := by simpa using h
+      simp only [h', Bool.false_eq_true, if_false, votesTo_cons, ih]
+      omega
+
+theorem votesTo_nil (k : Nat) : votesTo k [] = 0 := rfl
+
+theorem avApply_votesTo (k : Nat) (period : Int) : ∀ (votes av : Votes),
+    votesTo k (avApply av votes period) = votesTo k av + votesTo k votes * period := by
+  intro votes
+  induction votes with
+  | nil => intro av; simp [avApply, votesTo, votesFor, sumInt]
+  | cons v vs ih =>
+    intro av
+    have := ih (avAdd av v.1 (v.2 * period))
+    simp only [avApply, List.foldl_cons] at *
+    rw [this, avAdd_votesTo, votesTo_cons, Int.add_mul]
+    by_cases h : (v.1 == k) = true <;> simp [h] <;> omega
+
+/-- Σ votes·(L − offset) over a voter's event list `(isBond, offset, votes)` -/
+def evSum (k : Nat) (L : Int) (evs : List (Bool × Nat × Votes)) : Int :=
+  sumInt (evs.map (fun e => votesTo k e.2.2 * (L - (e.2.1 : Int))))
+
+theorem foldl_events_votesTo (k : Nat) (L : Int) : ∀ (evs : List (Bool × Nat × Votes)) (av : Votes),
+    votesTo k (evs.foldl (fun av e => avApply av e.2.2 (L - (e.2.1 : Int))) av) = votesTo k av + evSum k L evs := by
+  intro evs
+  induction evs with
+  | nil => intro av; simp [evSum, sumInt]
+  | cons e rest ih =>
+    intro av
+    simp only [List.foldl_cons, evSum, List.map_cons, sumInt_cons]
+    rw [ih, avApply_votesTo]
+    simp only [evSum]; omega
+
+/-- accumulation identity, voter side: what `processVoterReward` accumulates for voter `v` and P-Rep `k` -/
+theorem voterAV_votesTo (i : Input) (v k : Nat) :
+    votesTo k (voterAV i v) =
+      (votesTo k (lookupVotes i.delegating v) + votesTo k (lookupVotes i.bonding v)) * ((i.offsetLimit : Int) + 1) +
+      evSum k (i.offsetLimit : Int) (eventsOf i.events v) := by
+  unfold voterAV
+  simp only []
+  rw [foldl_events_votesTo, avApply_votesTo, avApply_votesTo, votesTo_nil, Int.add_mul]; omega
+
+end Goloop.C35.Proofs
